@@ -139,6 +139,21 @@ theorem exchange_extends {o a : Pc} {ex : Exchange} (hok : ExchangeOk o a ex) :
   rw [hrest, List.getElem?_append_right (Nat.le_add_right _ _)]
   simpa using hi
 
+/-- **Opposite roles.**  After any exchange from a pair satisfying the invariant, every negotiated section (transceiver with
+a mid, SCTP transport with a mid) of the offerer sits on a transport of one definite DTLS role and every negotiated
+section of the answerer on a transport of the opposite role. -/
+theorem exchange_roles_opposite {P : Kind → List Cap → Prop} (hP : PrefsOk P) {s : Pc × Pc} (h : Inv P s) {ex : Exchange}
+    (hn : Aiortc.Model.Negotiate.negotiate s.1 s.2 = .ok ex) :
+    ∃ ro ra, Opp ro ra ∧
+      (∀ t ∈ ex.offerer.transceivers, t.mid ≠ none → ex.offerer.roleOf t.transport = ro) ∧
+      (∀ t ∈ ex.answerer.transceivers, t.mid ≠ none → ex.answerer.roleOf t.transport = ra) ∧
+      (∀ c, ex.offerer.sctp = some c → c.mid ≠ none → ex.offerer.roleOf c.transport = ro) ∧
+      (∀ c, ex.answerer.sctp = some c → c.mid ≠ none → ex.answerer.roleOf c.transport = ra) := by
+  obtain ⟨ex', hn', hok⟩ := negotiate_ok h.wf1 h.wf2 h.paired (compatible_of_prefsOk hP h.prefs1 h.prefs2)
+  rw [hn] at hn'; cases hn'
+  obtain ⟨⟨ro, ra, hopp, Ro, Ra⟩, _, _⟩ := exchange_roles h.wf1 h.wf2 h.paired hok h.roles
+  exact ⟨ro, ra, hopp, Ro.owners, Ra.owners, Ro.sctpOwner, Ra.sctpOwner⟩
+
 /-- one operation -/
 theorem step_ok {P : Kind → List Cap → Prop} (hP : PrefsOk P) {s : Pc × Pc} (h : Inv P s) {op : Op} (hv : op.Valid P) :
     ∃ s' e, step s op = .ok (s', e) ∧ Inv P s' ∧ Extends s s' ∧ (∀ ex ∈ e.toList, ExGood ex) := by
